@@ -499,6 +499,7 @@ structure MhaIn where
   past : Bool
   keyT : Bool
   qPermOk : Bool
+  rotary : Bool := false        -- com.microsoft.RotaryEmbedding on the transposed query and key
   scale : Option Float          -- the SDPA node's `scale` attribute
   query : Option Shape
   key : Option Shape
@@ -548,10 +549,16 @@ def mha (i : MhaIn) : String :=
       match maskR, (b6.lookup "H") with
       | some m, some (.int h) =>
         let sc := match i.scale with | some s => s!";scale={showF s}" | none => ""
+        -- rotary rules: the rewrite re-emits RotaryEmbedding on the 3-D inputs WITHOUT forwarding the matched
+        -- nodes' attributes ("TODO: forward other attributes"), so `interleaved` is lost (finding C19-F14)
+        let pre := if i.rotary then
+            "RotaryEmbedding@com.microsoft{}(query,position_ids,cos,sin)->1 RotaryEmbedding@com.microsoft{}(key,position_ids,cos,sin)->1 "
+          else ""
+        let qk := if i.rotary then "@RotaryEmbedding,@RotaryEmbedding" else "query,key"
         if i.past then
-          s!"count=1/1/0 MultiHeadAttention@com.microsoft\{num_heads={h}{sc}}(query,key,value,_,_,{m},past_key,past_value)->3"
+          s!"count=1/1/0 {pre}MultiHeadAttention@com.microsoft\{num_heads={h}{sc}}({qk},value,_,_,{m},past_key,past_value)->3"
         else
-          s!"count=1/0/1 MultiHeadAttention@com.microsoft\{num_heads={h}{sc}}(query,key,value,_,_,{m},_,_)->1"
+          s!"count=1/0/1 {pre}MultiHeadAttention@com.microsoft\{num_heads={h}{sc}}({qk},value,_,_,{m},_,_)->1"
       | _, _ => fail
 
 /-! ## InstanceNormalization → GroupNorm (`instance_to_group_normalization.py`) -/
@@ -655,5 +662,154 @@ def attn (i : AttnIn) : String :=
         else
           s!"count=1 Attention@com.microsoft\{num_heads={i.heads};qkv_hidden_sizes=[{dq}/{dk}/{dv}]{sc}}(input,{w},bias,_,_,_,_)->1"
       | _, _, _ => fail
+
+/-! ## GroupQueryAttention (`gqa.py`) on the Phi-style source graph of `gqa_test.py` -/
+
+structure GqaIn where
+  query : Option Shape
+  key : Option Shape
+  value : Option Shape
+  pastKey : Option Shape
+  pastValue : Option Shape
+  q4 : Option Shape          -- query after Reshape to (B,S,H,Dh)
+  k4 : Option Shape          -- key after Reshape to (B,S,Hkv,Dh)
+  ilq : Int                  -- `interleaved` of the two RotaryEmbedding nodes
+  ilk : Int
+  maskOk : Bool              -- is the mask really the causal-mask pattern?  (NOT consulted, see below)
+
+def dimAt (s : Option Shape) (k : Nat) : Option Dim :=
+  match s with
+  | some l => l[k]?
+  | none => none
+
+/-- `GroupQueryAttention.check` + the attributes of `rewrite`.  The mask test of the code,
+`_causal_mask_pattern.match(...) is None`, never fails on a structural mismatch (`match` returns a *failed
+MatchResult*, not `None`), so `maskOk` does not enter the decision (finding C19-F13). -/
+def gqa (i : GqaIn) : String :=
+  let fail := "count=1/0"
+  match checkShape [] i.query ["B", "S", "D"] with
+  | none => fail
+  | some b1 =>
+  match checkShape b1 i.key ["B", "S", "Dkv"] with
+  | none => fail
+  | some b2 =>
+  match checkShape b2 i.value ["B", "S", "Dkv"] with
+  | none => fail
+  | some b3 =>
+  match checkShape b3 i.pastKey ["B", "Hkv", "P", "Dh"] with
+  | none => fail
+  | some b4 =>
+  match checkShape b4 i.pastValue ["B", "Hkv", "P", "Dv"] with
+  | none => fail
+  | some _ =>
+    match dimAt i.q4 2, dimAt i.k4 2 with
+    | some (.int h), some (.int hkv) =>
+      if i.ilq != i.ilk then fail else
+      s!"count=1/1 GroupQueryAttention@com.microsoft\{do_rotary=1;kv_num_heads={hkv};num_heads={h};rotary_interleaved={i.ilq}}(query,key,value,past_key,past_value,@Cast,@Add,cos,sin)->3"
+    | _, _ => fail
+
+/-! ## Packed QKV for GQA (`gqa_packed_qkv.py`) -/
+
+structure PqkvIn where
+  packed : Option Shape
+  qS : Option Shape
+  kS : Option Shape
+  vS : Option Shape
+  h : Nat
+  hkv : Nat
+  il : Int
+  sl : List Int       -- start1,end1,start2,end2,start3,end3
+  axisOk : Bool       -- the three Slices are on axis 2 with step 1 (pattern constants)
+
+/-- The split the check demands: `(head, q_hidden, kv_hidden)` from the packed hidden size. -/
+def packedSplit (hidden h hkv : Nat) : Nat × Nat × Nat :=
+  let head := hidden / (h + 2 * hkv)
+  (head, head * h, head * hkv)
+
+def pqkv (i : PqkvIn) : String :=
+  let fail := "count=0"
+  if !i.axisOk then fail else
+  match i.packed, i.sl with
+  | some [_, _, .int hidden], [s1, e1, s2, e2, s3, e3] =>
+    let (_, qh, kvh) := packedSplit hidden i.h i.hkv
+    if !(s1 == 0 && e1 == (qh : Int) && s2 == (qh : Int) && e2 == ((qh + kvh : Nat) : Int)
+         && s3 == ((qh + kvh : Nat) : Int) && e3 ≥ (hidden : Int)) then fail else
+    (match checkShape [] i.packed ["B", "S", "D"] with
+     | none => fail
+     | some b1 => match checkShape b1 i.qS ["B", "S", "Dq"] with
+       | none => fail
+       | some b2 => match checkShape b2 i.kS ["B", "S", "Dkv"] with
+         | none => fail
+         | some b3 => match checkShape b3 i.vS ["B", "S", "Dkv"] with
+           | none => fail
+           | some b4 =>
+             match lookupInt b4 "D", lookupInt b4 "Dq", lookupInt b4 "Dkv" with
+             | some d, some dq, some dkv =>
+               if dq + 2 * dkv != d then fail else
+               s!"count=1 GroupQueryAttention@com.microsoft\{do_rotary=1;kv_num_heads={i.hkv};num_heads={i.h};rotary_interleaved={i.il}}(packed,_,_,past_key,past_value,@Constant,@Constant,cos,sin)->3"
+             | _, _, _ => fail)
+  | _, _ => fail
+
+/-! ## `mha_scale.py` then `mha_bias.py` on a `com.microsoft.MultiHeadAttention` node -/
+
+structure MhabIn where
+  qm : Option Shape
+  km : Option Shape
+  vm : Option Shape
+  qbias : Option Shape     -- shape of the value added to the query projection (when `qb`)
+  dt : Nat
+  qb : Bool
+  kb : Bool
+  vb : Bool
+  biasFirst : Bool         -- the Adds are written `Add(bias, matmul)`
+  heads : Nat
+  pre : Option Float       -- `Mul(query, pre)` in front of the MHA node
+  preConst : Bool
+  ascale : Option Float    -- the node's own `scale` attribute
+  mask : Bool
+
+def mhab (i : MhabIn) : String :=
+  -- fuse_mha_scale: the Mul's second operand must be a one-element numeric constant
+  let c1 := i.pre.isSome && i.preConst
+  let scale1 : Option Float :=
+    if c1 then
+      match i.pre, dimAt i.qm 2 with
+      | some p, some (.int d) =>
+        let orig := match i.ascale with
+          | some a => a
+          | none => 1.0 / Float.sqrt ((d / i.heads).toFloat)
+        some (p * orig)
+      | _, _ => i.ascale
+    else i.ascale
+  -- what the MHA node's first input is after that
+  let mulLeft := i.pre.isSome && !c1
+  -- fuse_mha_bias: `OrValue([Add(matmul, bias), matmul])` per projection, Add not commuted
+  let pick (on : Bool) (mat bias : Option Shape) (matN biasN : String) : Bool × Option Shape × String :=
+    if on then (if i.biasFirst then (true, bias, biasN) else (true, mat, matN)) else (false, mat, matN)
+  let (hq, qsh, qn) := if mulLeft then (false, i.qm, "@Mul") else pick i.qb i.qm i.qbias "qm" "qbias"
+  let dshape : Option Shape := match i.qm with
+    | some l => l.getLast?.map (fun d => [d])
+    | none => none
+  let (hk, ksh, kn) := pick i.kb i.km dshape "km" "kbias"
+  let (hv, vsh, vn) := pick i.vb i.vm dshape "vm" "vbias"
+  let okBias :=
+    (hq || hk || hv) && (i.dt == 1 || i.dt == 10) &&
+    (match checkShape [] qsh ["B", "S", "D"] with
+     | none => false
+     | some b1 => match checkShape b1 ksh ["B", "Skv", "Dk"] with
+       | none => false
+       | some b2 => match checkShape b2 vsh ["B", "Skv", "Dv"] with
+         | none => false
+         | some b3 => (lookupInt b3 "D").isSome && (lookupInt b3 "Dk").isSome && (lookupInt b3 "Dv").isSome)
+  let sc := match scale1 with | some s => s!";scale={showF s}" | none => ""
+  let head := s!"count={if c1 then 1 else 0}/{if okBias then 1 else 0}"
+  if okBias then
+    s!"{head} MultiHeadAttention@com.microsoft\{num_heads={i.heads}{sc}}({qn},{kn},{vn},@Concat,_,{if i.mask then "mask" else "_"},_,_)->1"
+  else if c1 then
+    let q0 := if i.qb then "@Add" else "qm"
+    let k0 := if i.kb then "@Add" else "km"
+    let v0 := if i.vb then "@Add" else "vm"
+    s!"{head} MultiHeadAttention@com.microsoft\{num_heads={i.heads}{sc}}({q0},{k0},{v0}{if i.mask then ",_,_,mask" else ""})->1"
+  else head
 
 end OV.C19
